@@ -159,3 +159,124 @@ Proof.
   - exact H.
   - destruct (d r) as [[z r']|] eqn:Ed; [|discriminate]. rewrite (Hd _ _ Ed). exact H.
 Qed.
+
+(** ** the converse direction: the instance's encodings are self-delimiting *)
+Lemma le_tr k : tr (le_enc k) (le_dec k).
+Proof.
+  induction k as [|k IH]; intros v bs rest H.
+  - cbn [le_enc] in H. destruct (N.eqb_spec v 0) as [->|]; [|discriminate].
+    assert (bs = []) by congruence. subst bs. reflexivity.
+  - rewrite le_enc_S in H. destruct (le_enc k (v / 256)) as [bs'|] eqn:E; [|discriminate].
+    assert (Hb : bs = v mod 256 :: bs') by congruence. subst bs. cbn [app]. rewrite le_dec_S.
+    destruct (N.ltb_spec (v mod 256) 256) as [_|Hge];
+      [|pose proof (N.mod_lt v 256 ltac:(lia)); lia].
+    rewrite (IH _ _ rest E). f_equal. f_equal.
+    rewrite N.add_comm. symmetry. apply N.div_mod. lia.
+Qed.
+
+Lemma i_prim_tr p : tr (i_penc p) (i_pdec p).
+Proof.
+  intros v bs rest H. unfold i_penc in H. unfold i_pdec.
+  destruct (prim_width p) as [k|]; [|discriminate].
+  destruct p; try (rewrite (le_tr k _ _ rest H); reflexivity).
+  destruct (v <? 2) eqn:Ev; [|discriminate]. rewrite (le_tr k _ _ rest H), Ev. reflexivity.
+Qed.
+
+Lemma le_dec_first k b w r :
+  le_dec (S k) b = Some (w, r) -> exists r1, le_dec 1 b = Some (w mod 256, r1).
+Proof.
+  intros H. destruct b as [|x b']; [discriminate|]. rewrite le_dec_S in H. rewrite le_dec_S.
+  destruct (N.ltb_spec x 256) as [Hx|Hx]; [|discriminate].
+  destruct (le_dec k b') as [[v' r']|] eqn:E; [|discriminate].
+  remember (x + 256 * v') as w' eqn:Hw. assert (w = w') by congruence. subst w'.
+  exists b'. cbn [le_dec]. rewrite N.mul_0_r, N.add_0_r.
+  rewrite <- (N.mod_unique w 256 v' x) by lia. reflexivity.
+Qed.
+
+Lemma mod256_mod4 w : (w mod 256) mod 4 = w mod 4.
+Proof.
+  change 256 with (4 * 64). rewrite N.mod_mul_r by lia.
+  rewrite (N.mul_comm 4), N.mod_add by lia. apply N.mod_mod. lia.
+Qed.
+
+Lemma mul4_add_mod v m : m < 4 -> (4 * v + m) mod 4 = m /\ (4 * v + m) / 4 = v.
+Proof.
+  intros Hm. split.
+  - symmetry. apply (N.mod_unique _ 4 v m); lia.
+  - symmetry. apply (N.div_unique _ 4 v m); lia.
+Qed.
+
+Lemma compact_tr : tr compact_enc compact_dec.
+Proof.
+  intros v bs rest H. unfold compact_enc in H. unfold compact_dec.
+  destruct (N.ltb_spec v 64) as [H64|H64].
+  - destruct (mul4_add_mod v 0 ltac:(lia)) as [Hm Hd]. rewrite N.add_0_r in Hm, Hd.
+    remember (4 * v) as w eqn:Hw.
+    rewrite (le_tr 1 _ _ rest H). rewrite Hm, Hd. reflexivity.
+  - destruct (N.ltb_spec v 16384) as [H14|H14].
+    + destruct (mul4_add_mod v 1 ltac:(lia)) as [Hm Hd]. remember (4 * v + 1) as w eqn:Hw.
+      pose proof (le_tr 2 _ _ rest H) as E2.
+      destruct (le_dec_first _ _ _ _ E2) as (r1 & E1). rewrite E1, mod256_mod4, Hm.
+      change (1 =? 0) with false. change (1 =? 1) with true. cbn iota.
+      rewrite E2, Hm, Hd. change (1 =? 1) with true.
+      destruct (N.leb_spec 64 v); [reflexivity|lia].
+    + destruct (N.ltb_spec v 1073741824) as [H30|H30]; [|discriminate].
+      destruct (mul4_add_mod v 2 ltac:(lia)) as [Hm Hd]. remember (4 * v + 2) as w eqn:Hw.
+      pose proof (le_tr 4 _ _ rest H) as E4.
+      destruct (le_dec_first _ _ _ _ E4) as (r1 & E1). rewrite E1, mod256_mod4, Hm.
+      change (2 =? 0) with false. change (2 =? 1) with false. change (2 =? 2) with true.
+      cbn iota. rewrite E4, Hm, Hd. change (2 =? 2) with true.
+      destruct (N.leb_spec 16384 v); [reflexivity|lia].
+Qed.
+
+Lemma i_compact_tr p : tr (i_cenc p) (i_cdec p).
+Proof.
+  intros v bs rest H. unfold i_cenc in H. unfold i_cdec.
+  destruct (compact_bound p) as [bound|]; [|discriminate].
+  destruct (v <? bound) eqn:Ev; [|discriminate].
+  rewrite (compact_tr _ _ rest H), Ev. reflexivity.
+Qed.
+
+Lemma take_bytes_app : forall l rest, take_bytes (List.length l) (l ++ rest) = Some (l, rest).
+Proof.
+  induction l as [|x l IH]; intros rest; [reflexivity|].
+  cbn [List.length app take_bytes]. rewrite IH. reflexivity.
+Qed.
+
+Lemma i_bits_tr st or : tr (i_benc st or) (i_bdec st or).
+Proof.
+  intros v bs rest H. unfold i_benc in H. unfold i_bdec.
+  destruct st as [p| | | | | | | | |]; try discriminate. destruct p; try discriminate.
+  destruct v as [n l]. cbn [fst snd] in H.
+  destruct (N.eqb_spec (N.of_nat (List.length l)) ((n + 7) / 8)) as [El|El]; [|discriminate].
+  destruct (i_cenc PU32 n) as [c|] eqn:Ec; [|discriminate].
+  assert (bs = c ++ l) by congruence. subst bs. rewrite <- app_assoc.
+  rewrite (i_compact_tr PU32 _ _ (l ++ rest) Ec). rewrite <- El, Nat2N.id, take_bytes_app.
+  reflexivity.
+Qed.
+
+Lemma i_opaque_tr head (es : list (enc ival)) (ds : list (dec ival)) :
+  Forall2 tr es ds -> tr (i_oenc head es) (i_odec head ds).
+Proof.
+  intros H2 v bs rest H. unfold i_oenc in H. unfold i_odec.
+  destruct (is_option head); [|discriminate].
+  destruct H2 as [|e d es ds Hed H2]; [discriminate|].
+  destruct H2 as [|e2 d2 es ds _ _]; [|discriminate].
+  destruct v as [x|l|l|l|i l|x|x]; try discriminate.
+  destruct i as [|[q|q|]]; try discriminate.
+  - destruct l as [|x l]; [|discriminate]. assert (bs = [0]) by congruence. subst bs. reflexivity.
+  - destruct l as [|x [|x2 l]]; try discriminate.
+    destruct (e x) as [bs'|] eqn:Ee; [|discriminate].
+    assert (bs = 1 :: bs') by congruence. subst bs. cbn [app].
+    rewrite (Hed _ _ rest Ee). reflexivity.
+Qed.
+
+Theorem iprims_rev : prims_rev iprims.
+Proof.
+  constructor.
+  - exact i_prim_tr.
+  - exact i_compact_tr.
+  - exact (i_compact_tr PU32).
+  - exact i_bits_tr.
+  - exact i_opaque_tr.
+Qed.
